@@ -6,6 +6,7 @@ import (
 	"go/token"
 	"go/types"
 	"math/big"
+	"os"
 	"strings"
 
 	"golang.org/x/tools/go/ssa"
@@ -19,6 +20,20 @@ type Decision struct {
 	Taken  bool   // concretize: value taken (true) or excluded (false)
 	Forced bool   // other side infeasible: nothing added to PC
 	Kind   byte   // 'b' branch, 'c' concretize
+	Model  map[string]*big.Int // a model of the path condition right after this decision (alts only)
+}
+
+// adoptModel installs the model carried by the last decision of the replayed prefix.
+func (in *Interp) adoptModel(d Decision) {
+	if d.Model == nil || in.pos != len(in.prefix) {
+		return
+	}
+	for _, c := range in.pc {
+		if v, ok := term.Eval(c, d.Model); !ok || v.Sign() == 0 {
+			return
+		}
+	}
+	in.model = d.Model
 }
 
 type endKind int
@@ -101,6 +116,7 @@ type Interp struct {
 	trace     []Decision
 	pos       int
 	pc        []*term.Term
+	pcVars    []term.Bits
 	nsym      int
 	syms      []*term.Term
 	unwindN   int
@@ -126,6 +142,7 @@ type Interp struct {
 	condEvents []string
 	model     map[string]*big.Int // a model of the current PC, or nil
 	makeLimit int
+	curFn     *ssa.Function // function whose intrinsic is being evaluated
 }
 
 func (in *Interp) unsupported(msg string) pathEnd {
@@ -154,26 +171,95 @@ func qkey(ts []*term.Term) string {
 	return sb.String()
 }
 
+// slice returns the constraints of the path condition that share symbols (transitively) with
+// extra (constraint independence), in path-condition order, and whether that is all of them.
+func (in *Interp) slice(extra *term.Term) ([]*term.Term, bool) {
+	vs := append(term.Bits{}, term.VarSet(extra)...)
+	used := make([]bool, len(in.pc))
+	n := 0
+	for changed := true; changed; {
+		changed = false
+		for i := range in.pc {
+			if used[i] {
+				continue
+			}
+			cv := in.pcVars[i]
+			if len(cv) == 0 || cv.Intersects(vs) {
+				used[i] = true
+				n++
+				vs = vs.Or(cv)
+				changed = true
+			}
+		}
+	}
+	out := make([]*term.Term, 0, n+1)
+	for i, c := range in.pc {
+		if used[i] {
+			out = append(out, c)
+		}
+	}
+	return out, n == len(in.pc)
+}
+
+// check decides satisfiability of pc AND extra. Only the constraints that share symbols with
+// extra are sent to the solver; a returned model is always a model of the whole path condition
+// (the slice's model merged into the current full model).
 func (in *Interp) check(extra *term.Term, wantModel bool) (smt.Result, map[string]*big.Int, string) {
-	q := make([]*term.Term, 0, len(in.pc)+1)
-	q = append(q, in.pc...)
-	if extra != nil {
-		q = append(q, extra)
+	in.Queries++
+	full := func() (smt.Result, map[string]*big.Int, string) {
+		q := make([]*term.Term, 0, len(in.pc)+1)
+		q = append(q, in.pc...)
+		if extra != nil {
+			q = append(q, extra)
+		}
+		return in.Solver.Check(q, wantModel)
+	}
+	if extra == nil || noSlice {
+		return full()
+	}
+	sl, all := in.slice(extra)
+	res, m, note := in.Solver.Check(append(sl, extra), wantModel)
+	if res != smt.Sat || !wantModel || all {
+		return res, m, note
+	}
+	if in.model != nil {
+		merged := make(map[string]*big.Int, len(in.model)+len(m))
+		for k, v := range in.model {
+			merged[k] = v
+		}
+		for k, v := range m {
+			merged[k] = v
+		}
+		return res, merged, note
 	}
 	in.Queries++
-	return in.Solver.Check(q, wantModel)
+	return full()
 }
+
+var noSlice = os.Getenv("GOSYM_NOSLICE") != ""
 
 func (in *Interp) addPC(c *term.Term) {
 	if c.K == term.KTrue {
 		return
 	}
-	in.pc = append(in.pc, c)
 	if in.model != nil {
 		if v, ok := term.Eval(c, in.model); !ok || v.Sign() == 0 {
-			in.model = nil
+			// repair the full model on the slice that c touches
+			res, m, _ := in.check(c, true)
+			switch res {
+			case smt.Sat:
+				in.model = m
+			case smt.Unsat:
+				in.pc = append(in.pc, c)
+				in.pcVars = append(in.pcVars, term.VarSet(c))
+				panic(pathEnd{endInfeasible, "path condition became unsatisfiable"})
+			default:
+				in.model = nil
+			}
 		}
 	}
+	in.pc = append(in.pc, c)
+	in.pcVars = append(in.pcVars, term.VarSet(c))
 }
 
 // decide resolves a symbolic boolean by forking.
@@ -195,6 +281,7 @@ func (in *Interp) decide(cond *term.Term, site ssa.Instruction, fr *Frame) bool 
 			}
 			in.countUnwind(site, fr)
 		}
+		in.adoptModel(d)
 		return v
 	}
 	// model reuse: a model of the current PC decides one side for free
@@ -220,13 +307,13 @@ func (in *Interp) decide(cond *term.Term, site ssa.Instruction, fr *Frame) bool 
 		in.pos++
 		return false
 	}
+	var mf map[string]*big.Int
 	if known == 0 {
-		rf = smt.Sat
+		rf, mf = smt.Sat, in.model
 	} else {
-		var mf map[string]*big.Int
 		rf, mf, _ = in.check(term.BNot(cond), true)
-		if rf == smt.Sat && in.model == nil && rt != smt.Sat {
-			_ = mf
+		if rf != smt.Sat {
+			mf = nil
 		}
 	}
 	if rf == smt.Unsat {
@@ -247,7 +334,7 @@ func (in *Interp) decide(cond *term.Term, site ssa.Instruction, fr *Frame) bool 
 	// both (possibly) feasible: fork
 	alt := make([]Decision, len(in.trace)+1)
 	copy(alt, in.trace)
-	alt[len(in.trace)] = Decision{Val: 0, Kind: 'b'}
+	alt[len(in.trace)] = Decision{Val: 0, Kind: 'b', Model: mf}
 	in.alts = append(in.alts, alt)
 	in.trace = append(in.trace, Decision{Val: 1, Kind: 'b'})
 	in.pos++
@@ -290,6 +377,7 @@ func (in *Interp) concretize(t *term.Term, what string) uint64 {
 				return d.Val
 			}
 			in.addPC(term.BNot(c))
+			in.adoptModel(d)
 			continue
 		}
 		model := in.model
@@ -305,10 +393,16 @@ func (in *Interp) concretize(t *term.Term, what string) uint64 {
 			in.model = m
 		}
 		v := in.evalModel(t, model)
-		alt := make([]Decision, len(in.trace)+1)
-		copy(alt, in.trace)
-		alt[len(in.trace)] = Decision{Val: v, Taken: false, Kind: 'c'}
-		in.alts = append(in.alts, alt)
+		// is any other value feasible? (decided now, so that no path is started just to find out)
+		if rx, mx, _ := in.check(term.BNot(term.Eq(t, term.Const(t.W, v))), true); rx != smt.Unsat {
+			if rx != smt.Sat {
+				mx = nil
+			}
+			alt := make([]Decision, len(in.trace)+1)
+			copy(alt, in.trace)
+			alt[len(in.trace)] = Decision{Val: v, Taken: false, Kind: 'c', Model: mx}
+			in.alts = append(in.alts, alt)
+		}
 		in.trace = append(in.trace, Decision{Val: v, Taken: true, Kind: 'c'})
 		in.pos++
 		in.addPC(term.Eq(t, term.Const(t.W, v)))
@@ -530,14 +624,17 @@ func (in *Interp) callFn(fn *ssa.Function, args []Value, env []Value, caller *Fr
 		}
 	}
 	if h, ok := intrinsics[name]; ok {
+		in.curFn = fn
 		return h(in, args, caller)
 	}
 	if fn.Origin() != nil {
 		if h, ok := intrinsics[fn.Origin().String()]; ok {
+			in.curFn = fn
 			return h(in, args, caller)
 		}
 	}
 	if h := in.prefixIntrinsic(fn, name); h != nil {
+		in.curFn = fn
 		return h(in, args, caller)
 	}
 	if len(fn.Blocks) == 0 {
@@ -1464,6 +1561,9 @@ func (in *Interp) valueEq(a, b Value) *term.Term {
 			return term.Bool(x.Nil && y.Nil)
 		}
 		return term.Bool(ok && x == y)
+	case RType:
+		y, ok := b.(RType)
+		return term.Bool(ok && types.Identical(x.T, y.T))
 	}
 	panic(in.unsupported(fmt.Sprintf("== on %T", a)))
 }
